@@ -79,7 +79,6 @@ where
             self.gglwe_to_ggsw_key_encrypt_sk_tmp_bytes(res)
         );
 
-        let res: &mut GGLWEToGGSWKeyCompressed<&mut [u8]> = &mut res.to_mut();
         let rank: usize = res.rank_out().as_usize();
 
         let (mut sk_prepared, scratch_1) = scratch.take_glwe_secret_prepared(self, res.rank());
@@ -98,15 +97,21 @@ where
 
             let (seed_xa_tmp, _) = source_xa.branch();
 
-            self.gglwe_compressed_encrypt_sk(
-                res.at_mut(i),
-                &sk_ij,
-                &sk_prepared,
-                seed_xa_tmp,
-                enc_infos,
-                source_xe,
-                scratch_3,
-            );
+            // The seeds of the view are copies: the ones derived for this key are stored into the owner.
+            let seeds: Vec<[u8; 32]> = {
+                let res_mut: &mut GGLWEToGGSWKeyCompressed<&mut [u8]> = &mut res.to_mut();
+                self.gglwe_compressed_encrypt_sk(
+                    res_mut.at_mut(i),
+                    &sk_ij,
+                    &sk_prepared,
+                    seed_xa_tmp,
+                    enc_infos,
+                    source_xe,
+                    scratch_3,
+                );
+                res_mut.at(i).seed.clone()
+            };
+            res.seed_mut(i).copy_from_slice(&seeds);
         }
     }
 }
